@@ -57,6 +57,12 @@ class Sem:
         return "<%s>" % self.kind
 
 
+def has_success(proj):
+    """the projection reads the success payload of a Result / Option: through a match (`as Ok`/`as Some`) or `?`"""
+    j = ''.join(proj)
+    return ':Ok' in j or ':Some' in j or '<ok>' in j
+
+
 def _strip(proj, variant):
     """strip leading `downcast:<i>:<variant>`, `field:0:*` from a projection"""
     if len(proj) >= 2 and proj[0].startswith('downcast:') and proj[0].endswith(':' + variant) and proj[1].startswith('field:0:'):
@@ -158,8 +164,9 @@ def select_sites(body):
     return out
 
 
-def sem(body, o, transparent=True, _depth=0):
-    """semantic origin of an operand (or place dict)"""
+def sem(body, o, transparent=True, _depth=0, want=None, tid=None):
+    """semantic origin of an operand (or place dict).  `want`: the variant the value is known to have at this read
+    (used to tell merged definitions apart, see Body.select_def)"""
     if o is None:
         return Sem('other')
     if 'k' in o:
@@ -168,11 +175,11 @@ def sem(body, o, transparent=True, _depth=0):
         pl = o['pl']
     else:
         pl = o
-    org = body.origin_place(pl)
-    return _sem_org(body, org, transparent, _depth)
+    org = body.origin_place(pl, want=want, tid=tid)
+    return _sem_org(body, org, transparent, _depth, want)
 
 
-def _sem_org(body, org, transparent, depth):
+def _sem_org(body, org, transparent, depth, want=None):
     if depth > 30:
         return Sem('other')
     k = org[0]
@@ -183,7 +190,7 @@ def _sem_org(body, org, transparent, depth):
     if k == 'multi':
         return Sem('place', local=org[1], proj=org[2], extra='multi')
     if k == 'ref':
-        inner = _sem_org(body, org[1], transparent, depth + 1)
+        inner = _sem_org(body, org[1], transparent, depth + 1, want)
         proj = org[2]
         if proj and proj[0] == 'deref':
             return Sem(inner.kind, inner.cs, inner.local, tuple(inner.proj) + tuple(proj[1:]), inner.const, inner.extra, inner.checked)
@@ -219,37 +226,59 @@ def _sem_org(body, org, transparent, depth):
         if cs.is_(TRY_BRANCH):
             rest = _strip(proj, 'Continue')
             if rest is not None:
-                inner = sem(body, cs.args[0], transparent, depth + 1)
+                inner = sem(body, cs.args[0], transparent, depth + 1, want='success', tid=cs.t.get('tid'))
+                if inner.kind == 'agg' and isinstance(inner.extra, dict) and inner.extra.get('variant') in ('Ok', 'Some') and not inner.proj and inner.extra.get('a'):
+                    # `Ok(v)?` after inlining a helper: the payload itself
+                    pay = sem(body, inner.extra['a'][0], transparent, depth + 1)
+                    return _project(body, pay, rest, transparent, depth)
                 # the success payload of the inner value
                 okproj = None
                 return Sem(inner.kind, inner.cs, inner.local, tuple(inner.proj) + ('<ok>',) + rest, inner.const, inner.extra, True)
             rest = _strip(proj, 'Break')
             if rest is not None:
-                inner = sem(body, cs.args[0], transparent, depth + 1)
+                inner = sem(body, cs.args[0], transparent, depth + 1, want='failure', tid=cs.t.get('tid'))
                 return Sem(inner.kind, inner.cs, inner.local, tuple(inner.proj) + ('<residual>',) + rest, inner.const, inner.extra, True)
             return Sem('branch', cs=cs, proj=proj, extra=sem(body, cs.args[0], transparent, depth + 1))
         return _sem_call(body, cs, proj, transparent, depth)
     if k == 'bin':
         return Sem('bin', extra=org, proj=org[4])
     if k == 'agg':
-        rv, proj = org[1], org[2]
-        # projection into a freshly built aggregate: follow the field operand
-        if proj and proj[0].startswith('field:') and 'a' in rv:
-            idx = int(proj[0].split(':')[1])
-            if idx < len(rv['a']):
-                inner = sem(body, rv['a'][idx], transparent, depth + 1)
-                return Sem(inner.kind, inner.cs, inner.local, tuple(inner.proj) + tuple(proj[1:]), inner.const, inner.extra, inner.checked)
-        if len(proj) >= 2 and proj[0].startswith('downcast:') and proj[1].startswith('field:') and 'a' in rv:
-            idx = int(proj[1].split(':')[1])
-            if idx < len(rv['a']):
-                inner = sem(body, rv['a'][idx], transparent, depth + 1)
-                return Sem(inner.kind, inner.cs, inner.local, tuple(inner.proj) + tuple(proj[2:]), inner.const, inner.extra, inner.checked)
-        return Sem('agg', extra=rv, proj=proj)
+        return _follow_agg(body, org[1], org[2], transparent, depth, want)
     if k == 'un':
         return Sem('un', extra=org)
     if k == 'discr':
         return Sem('discr', extra=org)
     return Sem('other', extra=org)
+
+
+def _follow_agg(body, rv, proj, transparent, depth, want=None):
+    """projection into a freshly built aggregate: follow the field operand"""
+    proj = tuple(proj)
+    if proj and proj[0].startswith('field:') and 'a' in rv:
+        idx = int(proj[0].split(':')[1])
+        if idx < len(rv['a']):
+            inner = sem(body, rv['a'][idx], transparent, depth + 1)
+            return _project(body, inner, proj[1:], transparent, depth)
+    if proj and proj[0].startswith('downcast:') and rv.get('variant') and proj[0].split(':', 2)[2] != rv['variant']:
+        return Sem('impossible')      # a read of variant X cannot see a value built as variant Y
+    if len(proj) >= 2 and proj[0].startswith('downcast:') and proj[1].startswith('field:') and 'a' in rv:
+        idx = int(proj[1].split(':')[1])
+        if idx < len(rv['a']):
+            inner = sem(body, rv['a'][idx], transparent, depth + 1, want=want if rv.get('variant') == 'Ready' else None)
+            return _project(body, inner, proj[2:], transparent, depth)
+    return Sem('agg', extra=rv, proj=proj)
+
+
+def _project(body, inner, rest, transparent=True, depth=0):
+    """apply a residual projection to a semantic origin"""
+    rest = tuple(rest)
+    if not rest:
+        return inner
+    if inner.kind == 'agg' and isinstance(inner.extra, dict) and not inner.proj:
+        return _follow_agg(body, inner.extra, rest, transparent, depth + 1)
+    if inner.kind == 'impossible':
+        return inner
+    return Sem(inner.kind, inner.cs, inner.local, tuple(inner.proj) + rest, inner.const, inner.extra, inner.checked)
 
 
 def _sem_call(body, cs, proj, transparent, depth):
@@ -302,24 +331,34 @@ def outcomes(body, cs):
         if not hit:
             continue
         t = body.blocks[i]['term']
+        # `?`: the Continue/Break arms also carry the variant names of the value that was branched on
+        alias = {}
+        if hit == 'branch':
+            bcs = s.cs
+            rn = (bcs.resolved or '') + ' ' + (bcs.gargs or '')
+            if 'core::result::Result' in rn.split(' as ')[0]:
+                alias = {'Continue': 'Ok', 'Break': 'Err'}
+            elif 'core::option::Option' in rn.split(' as ')[0]:
+                alias = {'Continue': 'Some', 'Break': 'None'}
+
+        def add(lab, e):
+            out.setdefault(lab, []).append(e)
+            if lab in alias:
+                out.setdefault(alias[lab], []).append(e)
+            if lab in SUCCESS:
+                out.setdefault('success', []).append(e)
+            if lab in FAILURE:
+                out.setdefault('failure', []).append(e)
         for v, _ in t['vals']:
             e = ('e', i, str(v))
             lab = body.edge_variant(e)
             if lab is None:
                 continue
-            out.setdefault(lab, []).append(e)
-            if lab in SUCCESS:
-                out.setdefault('success', []).append(e)
-            if lab in FAILURE:
-                out.setdefault('failure', []).append(e)
+            add(lab, e)
         e = ('e', i, 'otherwise')
         lab = body.edge_variant(e)
         if lab is not None and ('b', t['otherwise']) in body.reachable and body.blocks[t['otherwise']]['term']['t'] != 'unreachable':
-            out.setdefault(lab, []).append(e)
-            if lab in SUCCESS:
-                out.setdefault('success', []).append(e)
-            if lab in FAILURE:
-                out.setdefault('failure', []).append(e)
+            add(lab, e)
     # `value == Enum::Variant` / `!=` written with PartialEq instead of a match
     for i in body.switches():
         info = body.switch_info(i)
@@ -442,11 +481,12 @@ def success_edge_dominates(body, cs, node):
 
 def exits(body):
     """classify the ways the function produces its return value.
-    returns list of dicts: {'node':('b',i), 'kind': 'agg'|'call'|'copy'|'const', 'variant':.., 'cs':.., 'stmt':..}"""
+    returns list of dicts: {'node':('b',i), 'kind': 'agg'|'call'|'copy'|'const', 'variant':.., 'cs':.., 'stmt':..}
+    A return value merged from several definitions (the result of an inlined helper with several exits) is expanded
+    into those definitions: each of them is an exit, located where the value is produced."""
     out = []
-    for i, s in body.assigns():
-        if s['pl']['l'] != 0 or s['pl']['p']:
-            continue
+
+    def from_assign(i, s, depth):
         rv = s['rv']
         if rv['r'] == 'agg' and 'adt' in rv:
             out.append({'node': ('b', i), 'kind': 'agg', 'variant': rv['variant'], 'adt': norm(rv['adt']), 'rv': rv, 'stmt': s})
@@ -454,11 +494,29 @@ def exits(body):
             a = rv['a'][0]
             if a['k'] == 'const':
                 out.append({'node': ('b', i), 'kind': 'const', 'op': a, 'stmt': s})
-            else:
-                sm = sem(body, a)
-                out.append({'node': ('b', i), 'kind': 'copy', 'sem': sm, 'op': a, 'stmt': s})
+                return
+            pl = a['pl']
+            l = pl['l']
+            ds = [d for d in body.defs().get(l, []) if d[0] == 'call' or not d[2]['pl']['p']]
+            if not pl['p'] and len(ds) > 1 and depth < 4 and not (l <= body.argc and l != 0) and l not in body.user_locals_named():
+                for d in ds:
+                    if d[0] == 'call':
+                        out.append({'node': d[2].ret, 'kind': 'call', 'cs': d[2]})
+                    else:
+                        from_assign(d[1], d[2], depth + 1)
+                return
+            if not pl['p'] and len(ds) == 1 and s.get('inl_ret') is None and ds[0][0] == 'assign' and ds[0][2].get('inl_ret') and depth < 4:
+                from_assign(ds[0][1], ds[0][2], depth + 1)
+                return
+            sm = sem(body, a)
+            out.append({'node': ('b', i), 'kind': 'copy', 'sem': sm, 'op': a, 'stmt': s})
         else:
             out.append({'node': ('b', i), 'kind': 'other', 'rv': rv, 'stmt': s})
+
+    for i, s in body.assigns():
+        if s['pl']['l'] != 0 or s['pl']['p']:
+            continue
+        from_assign(i, s, 0)
     for cs in body.calls():
         if cs.dest['l'] == 0 and not cs.dest['p']:
             out.append({'node': cs.ret, 'kind': 'call', 'cs': cs})
@@ -662,7 +720,7 @@ def agg_variant_of(body, o):
     """if operand's origin is an enum aggregate: (adt, variant)"""
     s = sem(body, o)
     if s.kind == 'const' and s.extra and 'promoted' in s.extra:
-        pb = body.prog.promoted(body, s.extra['promoted'])
+        pb = body.prog.promoted_of(body, s.extra)
         if pb is not None:
             aggs = [st for _, st in pb.aggregates()]
             if len(aggs) == 1:
@@ -1070,3 +1128,128 @@ def reinitialised_each_iteration(body, use_node, var_name, const_value=0):
                 seen.add(s)
                 st.append(s)
     return True, '%d reset site(s) cut every cycle through the use' % len(inside)
+
+
+# ---- what a function does when a call fails --------------------------------------------------------
+
+def exit_is_failure(body, x):
+    """the exit returns a failure value whatever happened before: Err(..)/None aggregate, or the `?` conversion"""
+    if x['kind'] == 'agg':
+        return x['variant'] in ('Err', 'None', 'Break')
+    if x['kind'] == 'call':
+        return x['cs'].is_(FROM_RESIDUAL)
+    return False
+
+
+def failure_leaves(body, cs, also=()):
+    """When `cs` yields its failure variant (Err / None; `also`: further variant names counted as failure) the function
+    returns a failure value on every path.  Recognised shapes: the outcome is examined (match, if-let, `?` -- possibly
+    after error-mapping adapters) and every exit reachable from the failure edge is a failure exit; or the outcome is
+    not examined at all and the call's value itself (through adapters that keep failure-ness) is what is returned.
+    Returns (ok, how, detail)."""
+    oc = outcomes(body, cs)
+    fe = list(oc.get('failure', []))
+    for a in also:
+        fe += [e for e in oc.get(a, []) if e not in fe]
+    exs = exits(body)
+    if fe:
+        bad = []
+        n = 0
+        for e in fe:
+            rs = body.reach_set(e)
+            for x in exs:
+                if x['node'] in rs or x['node'] == e:
+                    n += 1
+                    if not exit_is_failure(body, x):
+                        bad.append(x)
+        return (n > 0 and not bad, 'examined', '%d failure edge(s), %d exits reached, %d not failure exits' % (len(fe), n, len(bad)))
+    if oc:
+        return (False, 'examined', 'the outcome is examined but no failure edge was found')
+    fw = []
+    for x in exs:
+        v = None
+        if x['kind'] == 'copy':
+            v = x['sem']
+        elif x['kind'] == 'call':
+            v = _sem_call(body, x['cs'], (), True, 0)
+        if v is not None and v.kind == 'call' and v.cs is cs and not v.proj:
+            fw.append(x)
+    return (bool(fw), 'forwarded', '%d exits return the call\'s own value' % len(fw))
+
+
+def success_leaves(body, cs):
+    """mirror image of failure_leaves: when `cs` succeeds the function returns a success value on every path from
+    there (examined: every exit reachable from the success edge is Ok(..)/Some(..); or the call's own value is returned
+    through adapters that keep success-ness)."""
+    oc = outcomes(body, cs)
+    se = list(oc.get('success', []))
+    exs = exits(body)
+    if se:
+        bad = []
+        n = 0
+        for e in se:
+            rs = body.reach_set(e)
+            for x in exs:
+                if x['node'] in rs or x['node'] == e:
+                    n += 1
+                    if not (x['kind'] == 'agg' and x['variant'] in ('Ok', 'Some', 'Continue')):
+                        bad.append(x)
+        return (n > 0 and not bad, 'examined', '%d success edge(s), %d exits reached, %d not success exits' % (len(se), n, len(bad)))
+    if oc:
+        return (False, 'examined', 'the outcome is examined but no success edge was found')
+    fw = []
+    for x in exs:
+        v = None
+        if x['kind'] == 'copy':
+            v = x['sem']
+        elif x['kind'] == 'call':
+            v = _sem_call(body, x['cs'], (), True, 0)
+        if v is not None and v.kind == 'call' and v.cs is cs and not v.proj:
+            fw.append(x)
+    return (bool(fw), 'forwarded', '%d exits return the call\'s own value' % len(fw))
+
+
+def initial_value(body, s, depth=0):
+    """for a Sem that stopped at a user variable which is later borrowed mutably (`let mut x = <expr>; x.f()`):
+    the semantic origin of the value it was bound to (its single whole definition), projected as `s` is.
+    Identity questions ("is this the request that was dequeued?") are about that binding."""
+    if s.kind != 'place' or depth > 6:
+        return s
+    l = s.local
+    if l <= body.argc and l != 0:
+        return s
+    ds = [d for d in body.defs().get(l, []) if d[0] == 'call' or not d[2]['pl']['p']]
+    if len(ds) != 1:
+        return s
+    d = ds[0]
+    if d[0] == 'call':
+        return _sem_call(body, d[2], tuple(s.proj), True, 0)
+    rv = d[2]['rv']
+    if rv['r'] != 'use' or rv['a'][0].get('k') not in ('copy', 'move'):
+        return s
+    src = rv['a'][0]['pl']
+    inner = sem(body, {'l': src['l'], 'p': list(src['p'])})
+    if inner.kind == 'place' and inner.local == l:
+        return s
+    out = Sem(inner.kind, inner.cs, inner.local, tuple(inner.proj) + tuple(s.proj), inner.const, inner.extra, inner.checked)
+    return initial_value(body, out, depth + 1) if out.kind == 'place' else out
+
+
+def sem_alts(body, o, depth=0, want=None):
+    """all semantic origins an operand may have: a value merged from several definitions (if/else initialisation, the
+    result of an inlined helper with several exits) is expanded into one alternative per definition.  A rule that
+    accepts a value asks that every alternative be acceptable."""
+    s = o if isinstance(o, Sem) else sem(body, o, want=want)
+    if not (s.kind == 'place' and s.extra == 'multi') or depth > 3:
+        return [s]
+    out = []
+    for d in body.whole_defs(s.local):
+        org = body.origin_from_def(d, s.proj, 0, want)
+        a = _sem_org(body, org, True, 0, want)
+        if a.kind == 'impossible':
+            continue
+        if a.kind == 'place' and a.extra == 'multi' and a.local != s.local:
+            out += sem_alts(body, a, depth + 1, want)
+        else:
+            out.append(a)
+    return out
